@@ -70,6 +70,7 @@ impl<'a> OperationVisitor<'a, ValidationErrorContext> for KnownArgumentNames<'a>
         _: &mut ValidationErrorContext,
         field: &crate::static_graphql::query::Field,
     ) {
+        self.current_known_arguments = None;
         if let Some(parent_type) = visitor_context.current_parent_type() {
             if let Some(field_def) = parent_type.field_by_name(&field.name) {
                 self.current_known_arguments = Some((
